@@ -22,7 +22,8 @@ import sys
 from vlib import core
 
 ID = "C14"
-LEVEL = "differential"
+READY = True
+LEVEL = "exploration"
 RULE = ("one case = one source text (a corpus file of the 3.12 stdlib / rope / ropetest, a run of top-level statements "
         "cut from one, or a construct-rich seed snippet; fuzz cases apply 4-40 validity-preserving layout mutations "
         "checked by compile()+ast.dump); every region, every offset, every line of a statement and every offset of "
